@@ -811,3 +811,59 @@ def replay_simulated(mode, res: Result, work: Work, num, depth=18, max_leaves=8)
     res.count("evaluations", acc.counts.get("evaluations", 0))
     res.count("simulated_subexpressions_replayed", acc.counts.get("evaluations", 0))
     res.merge_distinct(acc.distinct)
+
+
+# ------------------------------------------------------------------ C05 / C06 on random deep expressions
+def deep_law_pairs(res: Result, n, max_leaves=10):
+    """the metamorphic laws of C05 on random in-domain expressions with 5..max_leaves leaves (both members of each pair evaluated by the real code)"""
+    import ahb
+    ahb.configure()
+    rng = random.Random(seed() * 439 + 5)
+    acc = Acc()
+
+    async def go():
+        for i in range(n):
+            set_keymap(rng if rng.random() < 0.5 else None)
+            t = random_tree(rng, rng.randint(5, max_leaves), [1, 2], [501, 502], [901, 902])
+            asg = {1: rng.choice("FUK"), 2: rng.choice("FUK")}
+            expr = render(t, rng)
+            got = await eval_real(expr, asg)
+            if got["err"] is not None:
+                continue
+            top = {"st": {v: k for k, v in OUTCOME.items()}[got["outcome"]]}
+            await check_laws(expr, asg, t, top, got, acc, {"expr": expr, "tree": t, "asg": asg, "keymap": dict(_KM)}, rng)
+
+    asyncio.run(go())
+    for d, c in acc.viol:
+        res.violation(d, c)
+    res.count("law_pairs", acc.counts.get("law_pairs", 0))
+    res.count("deep_law_pairs", acc.counts.get("law_pairs", 0))
+    res.merge_distinct(acc.distinct)
+
+
+def deep_validity(res: Result, work: Work, n, max_leaves=10):
+    """C06 on random deep expressions: the recorded runs are validated by TLC (the machine raises invalid iff the code does, event by event), and
+    the validity check must agree with evaluation"""
+    import ahb
+    from ahbicht.content_evaluation import is_valid_expression
+    traces = trace_validation(res, work, n_random=n, max_leaves=max_leaves)
+    ahb.configure()
+    rng = random.Random(seed() * 443 + 6)
+    sample = [t for t in traces if t["events"] and in_generator_domain(t["events"]) and "unsupported" not in str(t["events"][-1].get("err"))]
+    rng.shuffle(sample)
+
+    async def go():
+        for t in sample[:max(40, n // 10)]:
+            invalid = t["events"][-1].get("err") == "invalid"
+            try:
+                verdict = await is_valid_expression("Muss " + t["expr"], ahb.set_cer)
+            except BaseException as e:  # pylint:disable=broad-except
+                res.violation(f"is_valid_expression('Muss {t['expr']}') raised {type(e).__name__}", {"kind": "deep-validity", "expr": t["expr"]})
+                continue
+            res.count("validity_checks")
+            ok = (verdict[0] is False and bool(verdict[1])) if invalid else verdict == (True, None)
+            if not ok:
+                res.violation(f"is_valid_expression('Muss {t['expr']}') = {verdict}, evaluation {'raises the invalid-expression error' if invalid else 'does not raise'}",
+                              {"kind": "deep-validity", "expr": t["expr"]})
+
+    asyncio.run(go())
